@@ -31,7 +31,9 @@ META = {
         "*_dir_* key on (inflow_ind, inflow_ind), the upwind key holds the matrix built from the deleted arrays; "
         "assemble_matrix_rhs multiplies the matrix read from the dir key (not the neu one) by the flux. R6: all "
         "three stored matrices are kron(M, eye(num_components)) with the same num_components, and the point-grid "
-        "shortcut stores the same three keys. Not decided: conservation / maximum principle of a transport step "
+        "shortcut stores the same three keys; every store is an unconditional item assignment (no setdefault / "
+        "if-missing guard: a kept entry is stale after the boundary condition or flux changes); the inflow test has "
+        "no conjunct besides is_dir and the direction/exterior alternatives. Not decided: conservation / maximum principle of a transport step "
         "(run-time), the sign convention of cell_faces itself (positive = normal points out of the cell)."),
     "rule_text": "one obligation per (producer store | upstream store | inflow conjunct | deleted array | stored matrix | key)",
     "trusted_base": ["python ast", "sa.core (loader, astutil, cfg)", "sa.rules.c14.Fn (reaching definitions)",
@@ -40,7 +42,7 @@ META = {
                     "np.sign is the only transformation between the stored flux and the compared array"],
     "technique": "cross-module convention extraction + typed dataflow (reaching definitions) on both sides",
 }
-MIN_INSTANCES = {"R1": 5, "R2": 7, "R3": 6, "R4": 6, "R5": 6, "R6": 5}
+MIN_INSTANCES = {"R1": 5, "R2": 7, "R3": 7, "R4": 6, "R5": 6, "R6": 8}
 
 
 def _const_int(e: ast.expr) -> Optional[int]:
@@ -311,13 +313,38 @@ def check_consumer(ctx: Ctx, P: dict) -> None:
     # ---------------- the upwind matrix and its three deleted arrays (R4) ---------------------------------
     stores = []  # (key attr, stmt, value)
     dim0 = []
+    weak = []  # stores that do not overwrite unconditionally
+
+    def is_matdict(e: ast.expr, at: ast.stmt) -> bool:
+        return isinstance(e, ast.Name) and any(isinstance(n, ast.Attribute) and n.attr == "DISCRETIZATION_MATRICES"
+                                                for n in ast.walk(f.canon(e, at)))
+
     for s in f.stmts:
+        attr = val = None
+        how = "item assignment"
         if isinstance(s, ast.Assign) and len(s.targets) == 1 and isinstance(s.targets[0], ast.Subscript):
             t = s.targets[0]
-            if isinstance(t.value, ast.Name) and isinstance(t.slice, ast.Attribute) and t.slice.attr.endswith("_key") \
-                    and any(isinstance(n, ast.Attribute) and n.attr == "DISCRETIZATION_MATRICES" for n in ast.walk(f.canon(t.value, s))):
-                iff, _ = f.arm_of(s)
-                (dim0 if iff is not None else stores).append((t.slice.attr, s, s.value))
+            if isinstance(t.slice, ast.Attribute) and t.slice.attr.endswith("_key") and is_matdict(t.value, s):
+                attr, val = t.slice.attr, s.value
+        elif isinstance(s, ast.Expr) and isinstance(s.value, ast.Call) and isinstance(s.value.func, ast.Attribute) \
+                and is_matdict(s.value.func.value, s):
+            meth = s.value.func.attr
+            if meth == "setdefault" and len(s.value.args) == 2 and isinstance(s.value.args[0], ast.Attribute):
+                attr, val, how = s.value.args[0].attr, s.value.args[1], "setdefault (keeps an existing entry)"
+            elif meth in ("update", "pop", "clear", "__setitem__"):
+                raise c.und("matrix dictionary modified through an unrecognised method", s)
+        if attr is None:
+            continue
+        iff, arm = f.arm_of(s)
+        if iff is not None:
+            body = iff.body if arm == "body" else iff.orelse
+            if body and isinstance(body[-1], ast.Return):
+                dim0.append((attr, s, val))
+                continue
+            how = "store under a condition"
+        stores.append((attr, s, val))
+        if how != "item assignment":
+            weak.append((attr, s, how))
     if len(stores) != 3:
         raise AnchorError(f"{UPWIND}:{Q_DISC}: expected three stores into the matrix dictionary on the main path, found {len(stores)}")
 
@@ -330,6 +357,10 @@ def check_consumer(ctx: Ctx, P: dict) -> None:
 
     def coo_of(e: ast.expr, at: ast.stmt):
         """kron(M, eye(n)).tocsr() -> (M-expr, kron-call or None); then M -> coo_matrix((V, (I, J)), ...)"""
+        if isinstance(e, ast.Name):  # a temporary holding the expanded matrix
+            d0 = f.unique_def(e.id, at)
+            if d0 is not None and d0.kind == "plain" and d0.value is not None:
+                e, at = d0.value, d0.stmt
         k = strip_conv(e)
         kr = k if isinstance(k, ast.Call) and call_name(k) == "kron" and len(k.args) == 2 else None
         mexpr = kr.args[0] if kr is not None else k
@@ -419,10 +450,16 @@ def check_consumer(ctx: Ctx, P: dict) -> None:
     ctx.check("R3", [x[1].attr for x in bc_atoms] == ["is_dir"], mod, Q_DISC, wst,
               f"the inflow faces treated by boundary data are Dirichlet faces: the test must be restricted by {c.bc}.is_dir",
               construct="inflow test: restricted to Dirichlet faces", facts={"bc_flags": [x[1].attr for x in bc_atoms]})
-    if len(rest) != 1 or rest[0][0] != "or":
+    ors = [x for x in rest if x[0] == "or"]
+    extras = [x for x in rest if x[0] != "or"]
+    if len(ors) != 1:
         raise c.und("inflow test is not  is_dir and (A or B)", w)
+    ctx.check("R3", not extras, mod, Q_DISC, wst,
+              "the faces handled as Dirichlet inflow must be all faces with is_dir and inflow: further restrictions move Dirichlet "
+              f"faces out of the boundary treatment; extra conjuncts: {[u(x[1]) for x in extras if x[0] == 'atom']}",
+              construct="inflow test: no further restriction")
     covered = set()
-    for alt in c.flat(rest[0], "or"):
+    for alt in c.flat(ors[0], "or"):
         parts = c.flat(alt, "and")
         if len(parts) != 2 or any(p[0] != "atom" for p in parts):
             raise c.und("alternative of the inflow test is not  <flux mask> and <exterior test>", w)
@@ -492,6 +529,12 @@ def check_consumer(ctx: Ctx, P: dict) -> None:
               construct="matrix keys are distinct", facts={k: vals.get(k) for k in ks})
 
     # ---------------- R6: component expansion --------------------------------------------------------------------
+    for attr, s, v in stores:
+        bad = [h for a_, s_, h in weak if s_ is s]
+        ctx.check("R6", not bad, mod, Q_DISC, s,
+                  f"discretize must overwrite matrix_dictionary[{attr}] unconditionally: all three matrices depend on the boundary "
+                  f"condition / flux of *this* call and a kept entry is stale after a change; found {bad[0] if bad else 'item assignment'}",
+                  construct=f"{attr}: unconditional store")
     ncs = set()
     for kc in ("upwind", "neu", "dir"):
         attr, s, v, kr, *_ = built[kc]
@@ -555,6 +598,24 @@ MUTANTS = [
        "rhs = div @ (bc_discr_dir + bc_discr_neu @ flux_mat) @ bc_values", "R5"),
     _m("kron-order-differs-on-one", "sps.kron(\n            bc_discr_dir, sps.eye(num_components)\n        )",
        "sps.kron(\n            sps.eye(num_components), bc_discr_dir\n        )", "R6"),
+    # --- seeded by independent fault-seeding agents (all pass the repo's tests)
+    _m("seed-kron-eye-first-on-upwind", "sps.kron(\n            upstream_mat, sps.eye(num_components)\n        )",
+       "sps.kron(\n            sps.eye(num_components), upstream_mat\n        )", "R6", control=True),
+    dict(name="seed-internal-faces-forced-neumann", rule="R4", control=False, file=UPWIND, old="", new="", edits=[
+        dict(file=UPWIND, old="        neumann_ind = np.where(bc.is_neu)[0]\n",
+             new="        is_dir = np.logical_and(bc.is_dir, np.logical_not(bc.is_internal))\n"
+                 "        neumann_ind = np.where(np.logical_or(bc.is_neu, bc.is_internal))[0]\n", count=1),
+        dict(file=UPWIND, old="                bc.is_dir,\n                np.logical_or(", new="                is_dir,\n                np.logical_or(", count=1)]),
+    _m("seed-neumann-matrix-setdefault",
+       "        matrix_dictionary[self.bound_transport_neu_matrix_key] = sps.kron(\n            bc_discr_neu, sps.eye(num_components)\n        ).tocsr()\n",
+       "        matrix_dictionary.setdefault(\n            self.bound_transport_neu_matrix_key,\n            sps.kron(bc_discr_neu, sps.eye(num_components)).tocsr(),\n        )\n",
+       "R6", control=True),
+    _m("dir-matrix-stored-only-if-missing",
+       "        matrix_dictionary[self.bound_transport_dir_matrix_key] = sps.kron(\n            bc_discr_dir, sps.eye(num_components)\n        ).tocsr()\n",
+       "        if self.bound_transport_dir_matrix_key not in matrix_dictionary:\n            matrix_dictionary[self.bound_transport_dir_matrix_key] = sps.kron(\n                bc_discr_dir, sps.eye(num_components)\n            ).tocsr()\n",
+       "R6"),
+    _m("inflow-restricted-further", "                bc.is_dir,\n                np.logical_or(",
+       "                np.logical_and(bc.is_dir, np.logical_not(bc.is_internal)),\n                np.logical_or(", "R3"),
     _m("kron-dropped-on-one", "matrix_dictionary[self.bound_transport_neu_matrix_key] = sps.kron(\n            bc_discr_neu, sps.eye(num_components)\n        ).tocsr()",
        "matrix_dictionary[self.bound_transport_neu_matrix_key] = bc_discr_neu.tocsr()", "R6"),
 ]
